@@ -281,6 +281,16 @@ func evalCheck(p *Prog, chk, gt *ssa.Function, script []relKind) string {
 		}
 		return nil
 	}
+	// every relationship the outer loop yields counts as visited, examined or not
+	in.elemHook = func(st *istate, nx *ssa.Next, op *aval, k int) {
+		if op == nil || op.String() == "target.Rels" || !strings.HasSuffix(op.String(), ".Rels") {
+			return
+		}
+		// same numbering as the element names: header visits across all types
+		if abs := st.count[nx.Block()] - 1; abs >= 0 && abs < len(script) {
+			note(st, fmt.Sprintf("visit%d", abs))
+		}
+	}
 	outs := in.run(map[*ssa.Parameter]*aval{chk.Params[0]: symv("s", chk.Params[0].Type())})
 	nReal := 0
 	for _, o := range outs {
